@@ -74,6 +74,9 @@ def configs(tier, seed):
         for rhs in ("number", "ndarray", "read"):
             out.append(dict(h="falsy_label", op="falsy", key=f"falsy_label/{form}/{rhs}", xd="ab", lens=dict(a=3, b=2), form=form, rhs=rhs))
     out.append(dict(h="ambiguous", op="amb", key="ambiguous/shared-item", xd="ab", lens=dict(a=2, b=2)))
+    # keys that are not items of a typed dimension but would convert to one (2010.5, "2010", 1 for "1") are unknown items
+    for form in ("dict_letter", "dict_name", "bare", "tuple", "list", "subset"):
+        out.append(dict(h="typed_keys", op="typed", key=f"typed_keys/{form}", xd="ts", lens=dict(t=3, s=2), form=form))
     out.append(dict(h="shared_labels", op="shared", key="shared_labels/two-dims-same-labels-other-positions", xd="ab", lens=dict(a=3, b=4)))
     return out
 
@@ -135,6 +138,40 @@ def run(cfg, w):
         w.ob_arr_eq("named_dim_resolves_shared_item_b", r.values, X[:, 0])
         r = x["p", "r"]
         w.ob_eq("two_unique_items", r.values[()], X[0, 1])
+        return
+    if h == "typed_keys":
+        dt_ = Dimension(name="Time", letter="t", items=[2000, 2010, 2020], dtype=int)
+        ds_ = Dimension(name="Size", letter="s", items=["1", "2"], dtype=str)
+        X = w.arr("x", (3, 2))
+        x = FlodymArray(dims=DimensionSet(dim_list=[dt_, ds_]), values=X.copy())
+        near = {"t": [2010.5, "2010", 2010.0001, "2010.0", True], "s": [1, 2.0, 1.0]}
+        form = cfg["form"]
+        for l, name in (("t", "Time"), ("s", "Size")):
+            for k in near[l]:
+                if k == 2010.0 and form != "subset":
+                    continue
+                key = {"dict_letter": {l: k}, "dict_name": {name: k}, "bare": k, "tuple": (k,), "list": {l: [k]},
+                       "subset": {l: Dimension(name="Part", letter="u", items=[k])}}
+                tag = f"{l}:{k!r}"
+                try:
+                    kk = key[form]
+                except Exception:
+                    continue  # (a Dimension cannot even be built from that item: nothing to index with)
+                if form not in ("list",):
+                    try:
+                        x[kk]
+                        w.ob(f"convertible_non_item_rejected_on_read[{tag}]", False, info="accepted")
+                    except Exception:
+                        w.ob(f"convertible_non_item_rejected_on_read[{tag}]", True)
+                try:
+                    x[kk] = 7.0
+                    w.ob(f"convertible_non_item_rejected_on_write[{tag}]", False, info="accepted")
+                except Exception:
+                    w.ob(f"convertible_non_item_rejected_on_write[{tag}]", True)
+                w.ob_arr_eq(f"unchanged[{tag}]", x.values, X)
+        # the items themselves are found
+        w.ob_arr_eq("true_item_read", x[{"t": 2010}].values, X[1])
+        w.ob_arr_eq("true_item_read_str", x[{"s": "2"}].values, X[:, 1])
         return
     if h == "falsy_label":
         # labels that are falsy in Python (0, 0.0, "") address their entries like any other label
